@@ -2,6 +2,7 @@ package tun
 
 import (
 	"fmt"
+	"math"
 	"sort"
 	"strings"
 
@@ -694,7 +695,6 @@ func classifyC09(p *Plan, res *Result, rec *common.Rec) bool {
 	return (failedHb || disc) && (len(m.epochs) > 1 || selfTerm)
 }
 
-
 // oracleC09Overlap judges histories whose heartbeat interval is below the response timeout, where
 // exchanges overlap and which exchange receives a given response is not determined. It works on the
 // epochs *observed* in the trace and asserts only what holds for every assignment:
@@ -713,11 +713,11 @@ func oracleC09Overlap(p *Plan, res *Result) (*common.Fail, string) {
 	T := int64(p.Cfg.TimeoutUs) * 1000
 	h := int64(p.Cfg.HeartbeatUs) * 1000
 	type ep struct {
-		ch       int
-		s, e     int64 // e = -1: open at the end of the trace
-		endIdx   int
-		why      string // reconnect | terminated | open
-		discReq  bool   // a disconnect request for the channel was taken at e
+		ch      int
+		s, e    int64 // e = -1: open at the end of the trace
+		endIdx  int
+		why     string // reconnect | terminated | open
+		discReq bool   // a disconnect request for the channel was taken at e
 	}
 	var eps []*ep
 	var cur *ep
@@ -882,28 +882,51 @@ judge:
 
 // ------------------------------------------------------------------------------------------------
 // C09 on the real clock: Sends queued behind an unacknowledged Send while the tunnel reconnects.
-// "After a successful reconnect all frames carry the newly assigned channel" is judged with a grace:
-// a request *first* transmitted later than `grace` after the client took an OK connect response
-// (and with no further connect response in between) must carry that response's channel.
+// "After a successful reconnect all frames carry the newly assigned channel" is judged one-sidedly:
+// a request *first* transmitted later than `grace` after the client took the gateway's disconnect
+// request for channel c (a connection on c having been offered before) must not carry c - unless
+// the gateway offered c again in between. Only injection instants ("inj", a lower bound on when the
+// client can have seen a frame) and hand-over log instants ("dlv", an upper bound: under load the
+// pump can be descheduled between the hand-over and its log entry) enter the judgement, and no
+// assumption is made about which connect response the client accepted: when the constructor's
+// connect request is repeated under load the gateway answers twice and the client rightly ignores
+// the second answer.
 // ------------------------------------------------------------------------------------------------
 
 const c09Grace = int64(100e6)
 
 func oracleC09R(p *Plan, res *Result) (*common.Fail, bool) {
 	evs := res.Events
-	type epoch struct {
-		t  int64
-		ch int
+	type stamp struct {
+		inj, dlv int64
+		ch       int
 	}
-	var eps []epoch
+	collect := func(svc string) []stamp {
+		var out []stamp
+		n := 0
+		for _, e := range evs {
+			if e.Svc != svc || (svc == "ConnRes" && e.St != 0) {
+				continue
+			}
+			switch e.K {
+			case "inj":
+				out = append(out, stamp{inj: e.T, dlv: math.MaxInt64, ch: e.Ch})
+			case "dlv":
+				if n < len(out) {
+					out[n].dlv = e.T
+				}
+				n++
+			}
+		}
+		return out
+	}
+	offers, ends := collect("ConnRes"), collect("DiscReq")
 	first := map[int]bool{}
 	firstHex := map[int]string{}
 	queuedAcross := false
 	sendStart := map[int]int64{}
 	for i, e := range evs {
 		switch {
-		case e.K == "dlv" && e.Svc == "ConnRes" && e.St == 0:
-			eps = append(eps, epoch{e.T, e.Ch})
 		case e.K == "send>":
 			sendStart[e.Tag] = e.T
 		case e.K == "out" && e.Svc == "TunnelReq":
@@ -917,26 +940,41 @@ func oracleC09R(p *Plan, res *Result) (*common.Fail, bool) {
 			}
 			first[e.Tag] = true
 			firstHex[e.Tag] = e.Hex
-			// the epoch that was certainly in force
-			n, ambiguous := -1, false
-			var nt int64
-			for _, ep := range eps {
-				switch {
-				case ep.t <= e.T-c09Grace:
-					n, nt = ep.ch, ep.t
-				case ep.t <= e.T:
-					ambiguous = true
+			offered := false
+			for _, o := range offers {
+				if o.ch == e.Ch && o.inj <= e.T {
+					offered = true
 				}
 			}
-			if n < 0 || ambiguous {
-				continue
+			if !offered {
+				return failTrace(evs, i, "unknown-channel", "the request for telegram %d was transmitted at %s with channel %d, which no connect response had assigned by then", e.Tag, ms(e.T), e.Ch), false
 			}
-			if st, ok := sendStart[e.Tag]; ok && st < nt {
-				queuedAcross = true
-			}
-			if e.Ch != n {
-				return failTrace(evs, i, "stale-channel", "the request for telegram %d was first transmitted at %s with channel %d; the client had taken the connect response assigning channel %d at %s, %s earlier (the Send had been waiting since %s)",
-					e.Tag, ms(e.T), e.Ch, n, ms(nt), ms(e.T-nt), ms(sendStart[e.Tag])), false
+			for _, d := range ends {
+				if d.dlv > e.T {
+					continue
+				}
+				if st, ok := sendStart[e.Tag]; ok && st < d.inj {
+					queuedAcross = true
+				}
+				if d.ch != e.Ch || d.dlv > e.T-c09Grace {
+					continue
+				}
+				before, again := false, false
+				for _, o := range offers {
+					if o.ch != e.Ch {
+						continue
+					}
+					if o.dlv <= d.inj {
+						before = true
+					}
+					if o.inj > d.inj && o.inj <= e.T {
+						again = true
+					}
+				}
+				if before && !again {
+					return failTrace(evs, i, "stale-channel", "the request for telegram %d was first transmitted at %s with channel %d; the client had taken the gateway's disconnect request for that channel by %s, %s earlier, and the gateway has not assigned it again since (the Send had been waiting since %s)",
+						e.Tag, ms(e.T), e.Ch, ms(d.dlv), ms(e.T-d.dlv), ms(sendStart[e.Tag])), false
+				}
 			}
 		}
 	}
